@@ -754,6 +754,8 @@ static void DecodeNorm(Word Index) {
     DecodeAdr(&AdrResult, pOrder);
     if (AdrResult.ErgMode != -1) {
         if (pOrder->Codes[AdrResult.ErgMode] == -1) {
+            ShortInt OrigMode = AdrResult.ErgMode;
+
             if (AdrResult.ErgMode == ModZA) {
                 AdrResult.ErgMode = ModA;
             }
@@ -766,7 +768,9 @@ static void DecodeNorm(Word Index) {
             if (AdrResult.ErgMode == ModInd8) {
                 AdrResult.ErgMode = ModInd16;
             }
-            AdrResult.AdrVals[AdrCnt++] = 0;
+            if (AdrResult.ErgMode != OrigMode) {
+                AdrResult.AdrVals[AdrResult.AdrCnt++] = 0;
+            }
         }
         if (pOrder->Codes[AdrResult.ErgMode] == -1) {
             WrError(ErrNum_InvAddrMode);
